@@ -219,7 +219,7 @@ def classify(meta, res):
         VER = ("postcondition not satisfied", "precondition not satisfied", "assertion failed", "invariant not satisfied",
                "possible arithmetic underflow/overflow", "possible division by zero", "loop invariant", "decreases not satisfied",
                "recommendation not met", "index out of bounds", "cannot show", "unable to prove", "possible bit shift",
-               "termination", "could not prove", "assert", "possible", "failed")
+               "termination", "could not prove", "assert", "possible", "failed", "fails to satisfy")
         is_ver = any(k in msg for k in VER) and d.get("code") is None
         if not is_ver:
             frontend.append({"message": msg, "spans": [(s.get("file_name"), s.get("line_start")) for s in spans], "rendered": d.get("rendered", "")[:2000]})
